@@ -9,9 +9,12 @@ claimed = {
  "C08": ("differential: the full observation through the public read API before Close equals the one after Open, for symbolic KV / list / set / sorted-set histories through the real Update/Commit/Open over the modelled file system", "§5 C08"),
  "C09": ("Open succeeds on directories produced by symbolic histories (commit-time no-ops, reads of missing buckets in sparse mode) and on every crash image of the C10 scenarios (every mutation point, every byte cut)", "§5 C09"),
  "C10": ("crash atomicity: the modelled process dies at any file-mutation point (in-flight segment write cut at any byte); after the real Open the observation equals a crash-free twin's state after the last returned commit, or that plus the in-flight transaction in full", "§5 C10"),
+ "C11": ("the C10 crash scenarios with SyncEnable under a power-loss model of the file system: at the crash every file independently keeps its content or reverts to its content at its last sync", "§5 C11"),
  "C12": ("differential no-effect check of failed (fn error, rollback, oversized entry at any position, injected write error), read-only and finished transactions, in process and after reopen", "§5 C12"),
  "C13": ("differential: a multi-operation write transaction against a twin database committing each operation on its own (return values and final observation)", "§5 C13"),
+ "C19": ("differential: one symbolic history on two databases that differ in RWMode, StartFileLoadingMode, SyncEnable or index mode; call results, observation and observation after reopen must agree (includes entries that exactly fill a segment)", "§5 C19"),
  "C21": ("encode/decode round trip for all field values, every single-bit flip and every truncation of stored entries, root-index records and bucket metadata (CRC as collision-free digest)", "§5 C21"),
+ "C22": ("real Open over directories created in each index mode (fresh, written, merged) and reopened in each other mode: incompatible modes must be refused with the directory image unchanged, RAM modes interchangeable", "§5 C22"),
 }
 notes = {
 }
